@@ -92,24 +92,70 @@ def proj_node(n) -> dict:
                 callee = rd(args[2], "symbol")
             elif s == "core.load_const" and len(args) == 2 and type(args[1]).__name__ == "Apply":
                 callee = rd(args[1], "symbol")
+    nparams, nonlinear, constterm = 0, [], ""
+    if cls in ("DefineFunc", "DeclareFunc"):
+        symb = rd(op, "symbol")
+        names = [rd(p, "name") for p in rd(symb, "params")]
+        nparams = len(names)
+        for c in rd(symb, "constraints"):
+            if type(c).__name__ == "Apply" and rd(c, "symbol") == "core.nonlinear":
+                a = rd(c, "args")[0]
+                nm = rd(a, "name") if type(a).__name__ == "Var" else None
+                nonlinear.append(names.index(nm) if nm in names else -1)
+            else:
+                nonlinear.append(-2)
+    if cls == "CustomOp":
+        t = rd(op, "operation")
+        if type(t).__name__ == "Apply" and rd(t, "symbol") == "core.load_const":
+            a = rd(t, "args")
+            if len(a) == 2:
+                constterm = repr(a[1])
     key, metakeys = -1, []
     for t in rd(n, "meta"):
         if type(t).__name__ == "Apply":
             if rd(t, "symbol") == "core.order_hint.key":
                 key = lit(rd(t, "args")[0])
             elif rd(t, "symbol") == "compat.meta_json":
-                metakeys.append(lit(rd(t, "args")[0]))
+                a = rd(t, "args")
+                try:
+                    vj = json.dumps(json.loads(lit(a[1])), sort_keys=True)
+                except Exception:  # noqa: BLE001
+                    vj = f"<not json: {lit(a[1])!r}>"
+                metakeys.append(f"{lit(a[0])}={vj}")
     rd(n, "signature")
     return {"op": cls, "sym": sym, "callee": callee, "inputs": list(rd(n, "inputs")), "outputs": list(rd(n, "outputs")),
-            "regions": [proj_region(r) for r in rd(n, "regions")], "key": key, "metakeys": metakeys}
+            "regions": [proj_region(r) for r in rd(n, "regions")], "key": key, "metakeys": metakeys, "nparams": nparams, "nonlinear": nonlinear, "constterm": constterm}
 
 
 def pair(name, h) -> dict:
     d = json.loads(h.to_json())
     out = norm_doc(name, d)
     md = d.get("metadata") or []
-    out["metakeys"] = [sorted((md[k] or {}).keys()) if k < len(md) else [] for k in range(len(d["nodes"]))]
+    out["metakeys"] = [sorted(f"{kk}={json.dumps(vv, sort_keys=True)}" for kk, vv in (md[k] or {}).items()) if k < len(md) else [] for k in range(len(d["nodes"]))]
     out["exp"] = proj_region(rd(h.to_model(), "root"))
+    # the value every LoadConstant must inline: the value object of the Const it is linked to, exported on its own (value export does
+    # not go through the node exporter). Document indices are matched with the HUGR's nodes by walking both hierarchies in parallel.
+    from hugr import ops
+    kids = {k: [] for k in range(len(d["nodes"]))}
+    for k, nd in enumerate(d["nodes"]):
+        if k != 0:
+            kids[nd["parent"]].append(k)
+    hnode = {}
+    stack = [(0, h.root)]
+    while stack:
+        k, n = stack.pop()
+        hnode[k] = n
+        hk = list(h.children(n))
+        if len(hk) != len(kids[k]):
+            raise MachineryError("document and HUGR hierarchies differ")
+        stack.extend(zip(kids[k], hk))
+    terms = [""] * len(d["nodes"])
+    for k, nd in enumerate(d["nodes"]):
+        if nd.get("op") == "LoadConstant":
+            src = [p.node for p in h.linked_ports(hnode[k].inp(0))]
+            if len(src) == 1 and isinstance(h[src[0]].op, ops.Const):
+                terms[k] = repr(h[src[0]].op.val.to_model())
+    out["constterms"] = terms
     return out
 
 
@@ -188,13 +234,13 @@ def run(ctx: Ctx) -> None:
         # vacuity guard: corrupted exports must be rejected on the expected clause
         import copy
         neg = []
-        for p in pairs[:40]:
+        for p in [q for q in pairs if not v[q["name"]]["failing"]][:40]:        # (only exports that are faithful to begin with)
             kids = p["exp"]["children"]
             fn = next((c for c in kids if c["op"] == "DefineFunc" and c["regions"] and c["regions"][0]["children"]), None)
             if fn is None:
                 continue
             q = copy.deepcopy(p)
-            q["name"] = p["name"] + "|drop-port|RegionsMirrorHierarchy/PortsAreValuePorts/MetadataCarried"
+            q["name"] = p["name"] + "|drop-port|RegionsMirrorHierarchy/PortsAreValuePorts/MetadataCarried/SymbolParams/ConstInlined"
             tgt = next(c for c in q["exp"]["children"] if c["op"] == "DefineFunc" and c["regions"] and c["regions"][0]["children"])
             ch = tgt["regions"][0]["children"][0]
             if ch["outputs"]:
